@@ -173,13 +173,70 @@ def _first_line(out: str) -> str:
     return ""
 
 
+def _run_seed(args) -> Dict[str, Any]:
+    """Apply a kept, independently seeded change to a scratch copy of the current tree and run one property on it."""
+    name, patch, pid, root = args
+    import subprocess
+
+    tmp = tempfile.mkdtemp(prefix="verif-seedrun-")
+    try:
+        shutil.copytree(os.path.join(root, "cisco_acl"), os.path.join(tmp, "cisco_acl"))
+        p = subprocess.run(["git", "apply", "--unsafe-paths", f"--directory={tmp}", patch], cwd=tmp, capture_output=True, text=True)
+        if p.returncode != 0:
+            p = subprocess.run(["patch", "-p1", "-s", "-i", patch], cwd=tmp, capture_output=True, text=True)
+            if p.returncode != 0:
+                return {"seed": name, "status": "n/a", "why": "patch does not apply to the current tree"}
+        from sa import check as chk
+
+        buf = io.StringIO()
+        with redirect_stdout(buf):
+            try:
+                code = chk.run_property(pid, "quick", tmp, os.path.join(tmp, "out"), os.path.join(tmp, "ev"), quiet=False)
+            except Exception as ex:  # noqa: BLE001
+                code = 2
+                print(f"ANALYSIS-ERROR {type(ex).__name__}: {ex}")
+        return {"seed": name, "status": "ran", "exit": code, "first": _first_line(buf.getvalue())}
+    finally:
+        shutil.rmtree(tmp, ignore_errors=True)
+
+
+def run_seeds_for_property(pid: str, root: str) -> Dict[str, Any]:
+    """Every kept seed that breaks `pid` (per its meta.json) must make `pid`'s check exit 1 on the current tree + seed."""
+    import glob
+
+    verif = os.path.dirname(os.path.dirname(os.path.dirname(os.path.abspath(__file__))))
+    work = []
+    for d in sorted(glob.glob(os.path.join(verif, "seeded", "*"))):
+        try:
+            with open(os.path.join(d, "meta.json"), "r", encoding="utf-8") as fh:
+                meta = json.load(fh)
+        except (OSError, ValueError):
+            continue
+        if meta.get("breaks_property") == pid:
+            work.append((os.path.basename(d), os.path.join(d, "patch.diff"), pid, root))
+    out = {"seeds": len(work), "caught": 0, "missed": [], "not_applicable": []}
+    if not work:
+        return out
+    with ProcessPoolExecutor(max_workers=min(8, len(work))) as ex:
+        for r in ex.map(_run_seed, work):
+            if r["status"] == "n/a":
+                out["not_applicable"].append(r["seed"])
+            elif r["exit"] == 1:
+                out["caught"] += 1
+            else:
+                out["missed"].append(f"{r['seed']} exit={r['exit']} {r['first']}")
+    return out
+
+
 def run_for_property(pid: str, root: str) -> Dict[str, Any]:
     from .mutants import MUTANTS, TWINS
 
     cases = [dict(m, props=[pid]) for m in MUTANTS if pid in m["props"]]
     cases += [dict(t, props=[pid], twin=True) for t in TWINS]
     res = run_cases(cases, root)
-    return evaluate(cases, res)
+    out = evaluate(cases, res)
+    out["independent_seeds"] = run_seeds_for_property(pid, root)
+    return out
 
 
 def main(argv=None) -> int:
